@@ -1,6 +1,6 @@
 (* CliProofs.v — C06 (object files round-trip, loader), C07 (verdicts agree), C08 (all-or-nothing). *)
 From Coq Require Import Arith PeanoNat Lia.
-From Lace Require Import Word Machine Isa Vm RunProofs Asm Cli.
+From Lace Require Import Word Machine Isa Vm RunProofs Asm AsmProofs AsmWf Cli.
 Open Scope N_scope.
 
 (* ------------------------------------------------------------------ *)
@@ -38,6 +38,16 @@ Qed.
 Lemma load_file_compile im inp : image_orig im < W -> Forall (fun w => w < W) (i_words im) ->
   load_file (compile_bytes im) inp = from_raw (raw_of_image im) inp.
 Proof. intros Ho Hw. unfold load_file. rewrite roundtrip by assumption. reflexivity. Qed.
+
+(** For every source that assembles, loading its object file is loading the source's image. *)
+Lemma load_file_compile_src feat src im sym1 inp :
+  assemble feat [] src = (Ok im, sym1) ->
+  load_file (compile_bytes im) inp = from_raw (raw_of_image im) inp.
+Proof.
+  intros H. destruct (assemble_image _ _ _ _ _ H) as (a & _ & _ & _ & _ & Ho & Hw & _).
+  apply load_file_compile; [|exact Hw].
+  unfold image_orig. destruct (i_orig im); [exact Ho|reflexivity].
+Qed.
 
 Lemma words_of_bytes_length : forall n bs ws, (length bs <= n)%nat ->
   words_of_bytes bs = Some ws -> length bs = (2 * length ws)%nat.
